@@ -82,6 +82,7 @@ async def roundtrip(version, nv3, ni, node, prior=None, refuse=None):
                 await app.write_network_info(network_info=p_ni, node_info=p_node)
             out["prior_fc"], out["prior_keys"] = st.nwk_fc, sum(1 for k in st.keys if k is not None)
         w_ni, w_node = copy.deepcopy(ni), copy.deepcopy(node)
+        out["mfg_burnt_before"] = st.mfg_custom is not None
         if refuse is not None:
             st.refuse_partner = bytes(ni.key_table[refuse].partner_ieee.serialize())
         await app.write_network_info(network_info=w_ni, node_info=w_node)
@@ -130,7 +131,8 @@ def oracle(version, nv3, ni, node, o):
         gc = sorted((bytes(c.serialize()), int(L.nwk_addresses[c])) for c in L.children)
         if wc != gc:
             return (f"child table: wrote {len(wc)} children, read back {len(gc)}", "children")
-    if o["store"].nv3 and node.ieee != zt.EUI64.UNKNOWN:
+    burn = bool(ni.stack_specific.get("ezsp", {}).get("i_understand_i_can_update_eui64_only_once_and_i_still_want_to_do_it")) and not o.get("mfg_burnt_before")
+    if (o["store"].nv3 or burn) and node.ieee != zt.EUI64.UNKNOWN:
         # (the store has the rewritable token only where the protocol version has the token commands: v9+)
         # the coordinator address supplied is the trust centre's: where the NCP can take it, it is what is read back
         if o["node"].ieee != node.ieee:
@@ -232,6 +234,19 @@ def cases(ctx):
                     prior[0].network_key.tx_counter = rng.randint(1, 1 << 31)  # a used stick, then a backup with a fresh counter
                     ni.network_key.tx_counter = 0
                 cs.append((v, nv3, mode, ni, node, prior, None))
+            # a backup that comes from another adapter: it says so in its metadata (the capability recorded there is the OTHER
+            # adapter's), and / or it carries the owner's consent to burn the address once where the token cannot be rewritten
+            for j in range(ctx.n(2, 6)):
+                import zigpy.types as zt
+
+                ni, node = rand_settings(rng, v, "wellknown")
+                if node.ieee == zt.EUI64.UNKNOWN:
+                    node.ieee = zt.EUI64.deserialize(bytes(rng.getrandbits(8) for _ in range(8)))[0]
+                if j % 2 == 0:
+                    ni.metadata = {"ezsp": {"stack_version": v, "can_burn_userdata_custom_eui64": bool(rng.getrandbits(1)), "can_rewrite_custom_eui64": not nv3}}
+                else:
+                    ni.stack_specific.setdefault("ezsp", {})["i_understand_i_can_update_eui64_only_once_and_i_still_want_to_do_it"] = True
+                cs.append((v, nv3, "wellknown", ni, node, None, None))
             # the NCP refuses one link key of the backup (not the last one): every other key is still restored
             for j in range(ctx.n(1, 4)):
                 ni, node = rand_settings(rng, v, "wellknown")
